@@ -44,6 +44,17 @@ namespace bloch::runtime {
 
     static constexpr bool kTraceConstructors = false;
 
+    namespace {
+        // Starts a new activation frame at scope index 'base' and restores the caller's frame
+        // on every exit path.
+        struct FrameGuard {
+            size_t& frameBase;
+            size_t saved;
+            FrameGuard(size_t& ref, size_t base) : frameBase(ref), saved(ref) { frameBase = base; }
+            ~FrameGuard() { frameBase = saved; }
+        };
+    }
+
     static std::pair<RuntimeField*, RuntimeClass*> findStaticFieldWithOwner(
         RuntimeClass* cls, const std::string& name) {
         RuntimeClass* cur = cls;
@@ -570,7 +581,7 @@ namespace bloch::runtime {
     }
 
     Value RuntimeEvaluator::lookup(const std::string& name) {
-        for (auto it = m_env.rbegin(); it != m_env.rend(); ++it) {
+        for (auto it = m_env.rbegin(); it != m_env.rend() - m_frameBase; ++it) {
             auto fit = it->find(name);
             if (fit != it->end())
                 return fit->second.value;
@@ -606,7 +617,7 @@ namespace bloch::runtime {
     }
 
     void RuntimeEvaluator::assign(const std::string& name, const Value& v) {
-        for (auto it = m_env.rbegin(); it != m_env.rend(); ++it) {
+        for (auto it = m_env.rbegin(); it != m_env.rend() - m_frameBase; ++it) {
             auto fit = it->find(name);
             if (fit != it->end()) {
                 Value newVal = v;
@@ -652,7 +663,7 @@ namespace bloch::runtime {
     }
 
     std::shared_ptr<Object> RuntimeEvaluator::currentThisObject() const {
-        for (auto it = m_env.rbegin(); it != m_env.rend(); ++it) {
+        for (auto it = m_env.rbegin(); it != m_env.rend() - m_frameBase; ++it) {
             auto found = it->find("this");
             if (found != it->end() && found->second.value.objectValue)
                 return found->second.value.objectValue;
@@ -1177,6 +1188,7 @@ namespace bloch::runtime {
             auto* prevClass = m_currentClassCtx;
             m_inStaticContext = true;
             m_currentClassCtx = cls;
+            FrameGuard frame(m_frameBase, m_env.size());
             slot = defaultValueForField(field, cls->name);
             if (field.hasInitializer && field.initializer) {
                 slot = eval(field.initializer);
@@ -1310,6 +1322,7 @@ namespace bloch::runtime {
                 m_inConstructor = false;
                 m_inDestructor = true;
                 beginScope();
+                FrameGuard frame(m_frameBase, m_env.size() - 1);
                 Value thisVal;
                 thisVal.type = Value::Type::Object;
                 thisVal.objectValue = std::shared_ptr<Object>(obj, [](Object*) {});
@@ -1375,6 +1388,7 @@ namespace bloch::runtime {
                 m_currentClassCtx = cls;
                 m_inStaticContext = false;
                 beginScope();
+                FrameGuard frame(m_frameBase, m_env.size() - 1);
                 Value thisVal;
                 thisVal.type = Value::Type::Object;
                 thisVal.objectValue = obj;
@@ -1413,6 +1427,7 @@ namespace bloch::runtime {
         m_inConstructor = true;
         m_inDestructor = false;
         beginScope();
+        FrameGuard frame(m_frameBase, m_env.size() - 1);
         Value thisVal;
         thisVal.type = Value::Type::Object;
         thisVal.objectValue = obj;
@@ -1549,6 +1564,7 @@ namespace bloch::runtime {
         m_inConstructor = false;
         m_inDestructor = false;
         beginScope();
+        FrameGuard frame(m_frameBase, m_env.size() - 1);
         if (!method->isStatic) {
             Value thisVal;
             thisVal.type = Value::Type::Object;
@@ -1582,6 +1598,7 @@ namespace bloch::runtime {
     Value RuntimeEvaluator::call(FunctionDeclaration* fn, const std::vector<Value>& args) {
         // Bind parameters, run the body until a return is hit, then unwind.
         beginScope();
+        FrameGuard frame(m_frameBase, m_env.size() - 1);
         for (size_t i = 0; i < fn->params.size() && i < args.size(); ++i) {
             m_env.back()[fn->params[i]->name] = {args[i], false, true};
         }
@@ -2815,6 +2832,8 @@ namespace bloch::runtime {
                 } else if (target.type == Value::Type::ClassRef && target.classRef) {
                     staticCls = target.classRef;
                     method = findMethod(staticCls, member->member, &args);
+                    if (viaSuper && method && !method->isStatic)
+                        receiver = currentThisObject();
                 } else if (target.type == Value::Type::ClassRef && !target.classRef &&
                            !target.className.empty()) {
                     // Static call on a generic template (e.g., List.of(x)) — attempt to
